@@ -7,3 +7,4 @@ pub mod tape;
 pub mod build;
 pub mod refint;
 pub mod resolve;
+pub mod rename;
